@@ -146,6 +146,49 @@ def spec_http_handshake(ck):
     ck.bounds['http-handshake'] = 'h11c_handshake up to the end of reading the request head'
 
 
+def spec_dispatcher_locks(ck):
+    """process_request: the rule list's lock is held for choosing the rule only -- not while the upstream is being connected,
+    not while the tunnel runs, not while a reply is written to the client.  (tokio's RwLock is write-preferring: a reader that
+    stays for the life of a tunnel makes a rule update wait for that tunnel, and every new connection wait for the update.)"""
+    from specs import dispatch
+    fn = ck.find(lambda: ck.db.free('process_request'), 'process_request')
+    if fn is None:
+        return
+    ex = ck.engine(loop_bound=4)
+    ex.benign_havoc = dispatch.BENIGN
+    st = State()
+    sym = dispatch.install_dispatch_overrides(ex, st)
+    install(ex)
+
+    def rules(ctx):
+        return Future('rules-acquire', [])
+
+    @CA.awaiter('rules-acquire')
+    def _aw(ctx, fut):
+        held = ctx.st.env.get('held', ())
+        ctx.st.trace.append(('acquire', 'rules', 'read', held))
+        ctx.st.env['held'] = held + (('rules', 'read'),)
+        return Ref(sym['rules_cell'], ())
+    ex.overrides.insert(0, (re.compile(r'(?:^|::)GlobalState::rules$'), rules))
+    ctx = Ref(st.alloc(Opaque('tokio::sync::RwLock<context::Context>', 'ctx')), ())
+    state = Ref(st.alloc(Opaque('GlobalState', 'state')), ())
+    outs = run_async(ex, st, fn, [ctx, state])
+    n = 0
+    for o, r in outs:
+        if o.status != 'returned':
+            continue
+        n += 1
+        bad = [e for e in o.trace if e[0] == 'await' and e[1] != 'rules-acquire' and any(h[0] == 'rules' for h in e[2])]
+        ex.prove(o, 'C14/dispatch/rule-list-lock-is-not-held-across-connect-relay-or-replies', z3.BoolVal(not bad))
+    if not n:
+        ck.add('C14/dispatch/reachability', 'vacuous', 'process_request never returned in the model')
+    for f in ex.findings:
+        if not hasattr(f, 'target'):
+            f.target = 'process_request locks'
+    ck.absorb(ex, 'process_request (locks)', [o for o, _ in outs])
+    ck.bounds['dispatcher-locks'] = 'one request through process_request (2-rule list, all dispatcher outcomes); acquire / await / drop order of the rule list guard'
+
+
 def replay_plan(ob):
     f = ob.finding
     if f is None:
